@@ -164,7 +164,7 @@ func runC04(c *Ctx) {
 				return
 			}
 			phi, ok := b.X.(*ssa.Phi)
-			if ok && phi.Comment == "bestPeer" && ir.IsNil(b.Y) {
+			if ok && ir.IsNil(b.Y) && types.Identical(phi.Type(), types.NewPointer(c.P.Named("neutrino", "ServerPeer"))) {
 				// only the test after the candidate loop
 				if ir.LoopHeaderOf(in.Block()) == nil {
 					bestCmp = append(bestCmp, in)
